@@ -205,6 +205,14 @@ def routing_case(ctx, case, monitors):
                     ctx.nontrivial_case(dict(i=insts[b], a=acts))
                     if b == 0:
                         ctx.sample(dict(case=case, actions=acts, reward=got, oracle=ref, padding=pad[b]))
+                rr = getattr(ep, "reward_repeat", None)
+                if rr is not None and rr.numel() == B:
+                    ctx.count("c03_repeated_reward_calls")
+                    r2 = rr.reshape(B, -1)[:, 0]
+                    for b in range(B):
+                        if complete[b] and abs(float(r2[b]) - float(r[b])) > tol_reward(float(r[b])):
+                            ctx.violation(sig_of(cfg, q="reward", via="repeated_call_on_same_state"), f"get_reward asked twice for the same final state returns {float(r[b])} and then {float(r2[b])}", dict(row=b, inst=insts[b], actions=ep.executed(b)))
+                            break
 
     # ---------------- C06 (accept side): checker must accept mask-generated feasible solutions --
     if "C06" in monitors and all(complete) and ep.actions:
@@ -389,6 +397,8 @@ def other_case(ctx, case, monitors):
                     ctx.nontrivial_case(dict(i=insts[b], a=acts))
                 if not v and abs(got + mk) > 1e-4 * max(1, abs(mk)):
                     ctx.violation(sig_of(cfg, q="reward", rule="makespan"), f"reward {got} != -makespan {-mk} of the reconstructed schedule", dict(row=b, inst=insts[b], actions=acts))
+                elif v and "C03" in monitors:
+                    ctx.violation(sig_of(cfg, q="reward", rule="makespan_of_invalid_schedule"), f"reward {got} is read from a schedule that violates '{v[0][0]}': {v[0][1]}", dict(row=b, inst=insts[b], actions=acts))
         if ep.reward_exc is not None:
             ctx.violation(sig_of(cfg, q="reward_raises"), f"get_reward raised {ep.reward_exc}", None)
         if cfg.get("stepwise") and "C07" in monitors and ep.error is None and ep.states:
@@ -449,6 +459,10 @@ def other_case(ctx, case, monitors):
                     ctx.nontrivial_case(dict(i=insts[b], a=acts))
                 if not v and got != -float(mk):
                     ctx.violation(sig_of(cfg, q="reward", rule="makespan"), f"reward {got} != -makespan {-mk}", dict(row=b, inst=insts[b], actions=acts))
+                elif v and "C03" in monitors:
+                    # the reported number is read off a schedule table that is not a valid schedule of the instance (overlaps, broken
+                    # stage order, wrong durations): it cannot be the makespan of the executed action sequence
+                    ctx.violation(sig_of(cfg, q="reward", rule="makespan_of_invalid_schedule", flatten=cfg["flatten"]), f"reward {got} is read from a schedule that violates '{v[0][0]}': {v[0][1]}", dict(row=b, inst=insts[b], actions=acts))
         return
 
     # ------------------------------------------------------------------ SMTWTP
@@ -617,3 +631,47 @@ def ffsp_pomo_case(ctx, case, monitors):
             ctx.violation(sig_of(cfg, q="reward", rule="makespan", mode="multistart"), f"reward {float(rew[r])} != -makespan {-mk} (row {r})", dict(row=r, inst=insts[b]))
             return
         ctx.nontrivial_case(dict(i=insts[b], s=sch))
+
+
+# ==========================================================================================
+# scheduling envs decoded by the bundled policy (its own decode loop and action bookkeeping)
+# ==========================================================================================
+def sched_policy_case(ctx, case, monitors):
+    """L2DPolicy decodes FJSP / JSSP batches; the actions it RETURNS are replayed by the reference simulator on the instance
+    as handed over: they must be executable, complete the schedule, and the returned reward must be minus its makespan."""
+    from vlib import policies
+
+    cfg, B, seed = case["cfg"], case["B"], case["s"]
+    name = cfg["env"]
+    env = envzoo.make_other(cfg)
+    torch.manual_seed(seed)
+    td_in = env.generator(batch_size=[B])
+    td0 = env.reset(td_in.clone())
+    insts = [S.JobShop.extract(td0.clone(), b) for b in range(B)]
+    pol = policies.make("l2d", env, seed=case.get("wseed", 0))
+    dec = S.fjsp_decode(cfg["mas"]) if name == "fjsp" else S.jssp_decode()
+    sig = sig_of(cfg, driver="policy:l2d", decode=case["decode"], mask_no_ops=cfg["mask_no_ops"])
+    try:
+        with torch.no_grad():
+            torch.manual_seed(seed + 1)
+            out = pol(td0.clone(), env, phase="test", decode_type=case["decode"], return_actions=True)
+    except Exception as e:
+        ctx.evaluation()
+        ctx.violation(dict(sig, q="policy_raises", exc=type(e).__name__), f"L2D forward raised {type(e).__name__}: {str(e)[:160]}", None)
+        return
+    ctx.count("episodes")
+    ctx.count("c07_policy_decodes")
+    acts_all, rew = out["actions"], out["reward"].reshape(B, -1)[:, 0]
+    for b in range(B):
+        acts = [int(a) for a in acts_all[b].tolist()]
+        s2, f2, m2, done2, err = S.JobShop.simulate(insts[b], acts, dec, not cfg["mask_no_ops"])
+        ctx.evaluation()
+        ctx.count("c07_policy_rows")
+        if err is not None or not done2:
+            ctx.violation(dict(sig, rule="returned_actions_not_executable"), f"the action sequence returned by the policy cannot be executed on its instance: {err or 'schedule not finished'}", dict(row=b, inst=insts[b], actions=acts))
+            return
+        mk = max(f for f, p in zip(f2, insts[b]["pad"]) if not p and f is not None)
+        if abs(float(rew[b]) + mk) > 1e-4 * max(1.0, abs(mk)):
+            ctx.violation(dict(sig, q="reward", rule="makespan_of_returned_actions"), f"policy reports reward {float(rew[b])}, the schedule of its returned actions has makespan {mk}", dict(row=b, inst=insts[b], actions=acts))
+            return
+        ctx.nontrivial_case(dict(i=insts[b], a=acts))
